@@ -210,6 +210,9 @@ class DataTransformBlock(ConfigBlock):
 
     @property
     def tree(self):
+        if not self.steps and not self.termination:
+            # an empty block (`output { }`) holds no data_transform at all
+            return Tree(self.__name__, [])
         return Tree(
             self.__name__,
             [
